@@ -1,7 +1,7 @@
 #!/bin/sh
 # usage: confirm_seed.sh <prop>   - confirm the seeded changes in /tmp/seed-<prop>-out/{1,2,3} in the scratch worktree /tmp/seed-<prop>:
 # demo exits 0 on the clean tree, 1 with the change, and the whole existing test-suite passes with the change
-P="$1"; W=/tmp/seed-$P; O=/tmp/seed-$P-out
+P="$1"; PRE="${2:-seed}"; W=/tmp/$PRE-$P; O=/tmp/$PRE-$P-out
 for k in 1 2 3; do
   [ -f $O/$k/patch.diff ] || continue
   cd $W && git checkout -q -- . && ./rebuild_ext.sh >/dev/null
